@@ -59,8 +59,8 @@ impl Check for C16 {
     }
     fn runs(&self, tier: Tier) -> u64 {
         match tier {
-            Tier::Quick => 80_000,
-            Tier::Thorough => 4_000_000,
+            Tier::Quick => 2_000_000,
+            Tier::Thorough => 80_000_000,
         }
     }
     fn run(&self, tape: &mut Tape, ctx: &RunCtx) -> RunOut {
